@@ -726,7 +726,7 @@ func init() {
 		want := map[string][][]int{}
 		cur := 0
 		for r, n := range c.p.Mats {
-			name := ml.MaterialName(c.p.MatIDs[r])
+			name := ml.MaterialKey(c.p.MatIDs[r])
 			for j := 0; j < n && cur < len(pi); j++ {
 				want[name] = append(want[name], pi[cur])
 				cur++
@@ -738,7 +738,7 @@ func init() {
 			if len(out.mats) != 1 {
 				return clDrops, fmt.Sprintf("result %d carries %d material ranges, expected one", oi, len(out.mats))
 			}
-			name := out.mats[0].Name
+			name := ml.KeyOf(out.mats[0].Ptr)
 			if len(po) == 0 {
 				continue
 			}
